@@ -58,7 +58,9 @@ static EntityUID AddLabelledBase(World& w, FakeTRS& src) {
   ++nk.second;
   return u;
 }
-static std::string UserTermFor(PictID p) { std::string s; for (PictID i = 0; i < p; ++i) s += "ℬ"; return s + "(X1)"; }
+// what the user adds to the result of pictogram p: a term whose definition mentions no alias (so renumbering never changes it)
+// and is unique to p (its depth)
+static std::string UserTermFor(PictID p) { std::string s; for (PictID i = 0; i < p; ++i) s += "ℬ"; return s + "(Z)"; }
 
 // ---- structure invariants of C19 on the real object
 static std::string Structure(const OSSchema& o) {
